@@ -29,7 +29,8 @@ ASSUMPTIONS = [
 ]
 SHARD_TIMEOUT = {"quick": 2400, "thorough": 20000}
 OPS = ["flux", "permeate_composition", "separation_factor", "ideal_curve", "ideal_iso", "ideal_noniso", "nonideal_curve",
-       "nonideal_iso", "nonideal_noniso", "fit", "fit_zero", "find_best_fit", "find_best_fit_zero", "measurements", "membrane", "ideal_iso_save"]
+       "nonideal_iso", "nonideal_noniso", "fit", "fit_zero", "find_best_fit", "find_best_fit_zero", "measurements", "membrane", "ideal_iso_save",
+       "driving_force"]
 
 
 def shards(tier, seed):
@@ -99,6 +100,12 @@ def history_ops(key):
                     "toff": rng.choice([0.0, 0.0, 0.004, 0.05, 0.3, 1.0, 7.0]),
                     # the activity model varies from call to call on the same objects
                     "model": rng.choice(["NRTL", "UNIQUAC"])})
+    if rng.random() < 0.25:
+        # a call that runs into the library's iteration bound and fails, then the driving-force routine directly and an ordinary call
+        k = rng.randrange(len(ops))
+        # (the direct call is about ANOTHER feed state than the failed one)
+        tail = [dict(ops[k], op="flux_capped"), dict(ops[k], op="driving_force", c=(ops[k]["c"] + 1) % 4, toff=ops[k]["toff"] + 3.0), dict(ops[k], op="flux")]
+        ops = ops[: k + 1] + tail + ops[k + 1:]
     return ops
 
 
@@ -133,6 +140,17 @@ def execute(w, o, tmpdir):
     tp, pp = cond.permeate_temperature, cond.permeate_pressure
     nid = dict(n_first=o["n"], n_second=o["n"], m_first=o["m"], m_second=o["m"])
     T = w.t + o["toff"]
+    if op == "flux_capped":
+        # a flux calculation that cannot converge (requested precision 0): ends with the library's error at its iteration bound
+        return w.pv.calculate_partial_fluxes(T, x, 0.0, tp, pp, calculation_type=o["model"])
+    if op == "driving_force":
+        # the public driving-force routine called directly
+        from pyvaporation.mixtures import Composition
+
+        c1, c2 = w.mix.first_component, w.mix.second_component
+        y = Composition(p=0.1 + 0.2 * o["c"], type="weight")
+        j = w.pv.get_partial_fluxes_from_permeate_composition(w.membrane.get_permeance(T, c1), w.membrane.get_permeance(T, c2), y, x, T, tp, pp, o["model"])
+        return (float(j[0]), float(j[1]))
     if op == "flux":
         r = w.pv.calculate_partial_fluxes(T, x, w.precision, tp, pp, calculation_type=o["model"])
         w.raw = [r]
@@ -263,7 +281,7 @@ def run_op(w, o, tmpdir):
     """-> ('ok', deep dump) | ('raised', type name) | ('slow', None)"""
     try:
         w.raw = []
-        with guards.budget(proc.SOFT_BUDGET):
+        with guards.budget(guards.HARD_EVALS if o["op"] == "flux_capped" else proc.SOFT_BUDGET):  # the capped call must reach the library's own bound
             r = execute(w, o, tmpdir)
         d = fingerprint.deep(r)
         # the caller owns what was returned to it: it recycles / overwrites those objects; whatever the library does later
@@ -274,6 +292,11 @@ def run_op(w, o, tmpdir):
             pass
         return "ok", d
     except guards.BudgetExceeded:
+        # the harness aborted the call from outside (like a KeyboardInterrupt): whatever the interrupted call left behind on
+        # the Pervaporation object is not the library's doing - continue with a new object
+        from pyvaporation.pervaporation import Pervaporation
+
+        w.pv = Pervaporation(w.membrane, w.mix)
         return "slow", None
     except Exception as e:
         return "raised", type(e).__name__
